@@ -317,31 +317,43 @@ def wrappers_rule(ctx, d1):
             d1.fail(name, 'rows', why or 'no normal path', f, f.node)
     f = prog.func(SEP, 'lle')
     # efficiency mixing in D-lin
-    blk = [x for x in walk_no_nested(f.node) if isinstance(x, ast.If) and src(x.test).startswith('efficiency <')]
+    # decided on the paths of the normal form on which `efficiency < 1` holds (in either polarity): the in-place updates of the two
+    # outlets, applied in path order to symbolic starting amounts t and b, give  top + bottom = eta*(t + b) + (1 - eta)*feed
+    from ..pathcond import implied2 as _imp2e
+    feedp, topp, botp = f.params[0], f.params[1], f.params[2]
+    eps_, _ = run_paths(prog.normal_form(f), max_paths=4000, follow_except=False)
     okk = False
-    if blk:
-        env = {'top.mol': Form.atom('t'), 'bottom.mol': Form.atom('b')}
-        cur = {'top': Form.atom('t'), 'bottom': Form.atom('b')}
-        loc = {}
+    n_eff = 0
+    blk = [f.node]
+    for p in eps_:
+        if p.raised:
+            continue
+        lt = _imp2e(p.conds, lambda t: isinstance(t, ast.Compare) and len(t.ops) == 1 and isinstance(t.ops[0], ast.Lt) and src(t.left) == 'efficiency'
+                    and isinstance(t.comparators[0], ast.Constant) and t.comparators[0].value == 1,
+                    lambda t: isinstance(t, ast.Compare) and len(t.ops) == 1 and isinstance(t.ops[0], ast.GtE) and src(t.left) == 'efficiency'
+                    and isinstance(t.comparators[0], ast.Constant) and t.comparators[0].value == 1)
+        if lt is not True:
+            continue
+        n_eff += 1
+        cur = {topp: Form.atom('t'), botp: Form.atom('b')}
         good = True
-        for s_ in blk[0].body:
-            if isinstance(s_, ast.AugAssign) and src(s_.target) in ('top.mol', 'bottom.mol'):
-                o = src(s_.target).split('.')[0]
-                L = Lin(loc)
-                v = L.form(s_.value)
-                if isinstance(s_.op, ast.Mult):
-                    cur[o] = cur[o] * v
-                elif isinstance(s_.op, ast.Add):
-                    cur[o] = cur[o] + v
+        for e in p.events:
+            if e.kind == 'augstore' and e.target in ('%s.mol' % topp, '%s.mol' % botp):
+                o = e.target.split('.')[0]
+                if e.op == 'Mult':
+                    cur[o] = cur[o] * e.value
+                elif e.op == 'Add':
+                    cur[o] = cur[o] + e.value
                 else:
                     good = False
-            elif isinstance(s_, ast.Assign) and isinstance(s_.targets[0], ast.Name):
-                loc[s_.targets[0].id] = Lin(loc).form(s_.value)
-            else:
-                good = False
         eta = Form.atom('efficiency')
-        want = eta * (Form.atom('t') + Form.atom('b')) + (Form.const(1) - eta) * Form.atom('feed.mol')
-        okk = good and (cur['top'] + cur['bottom']) == want
+        want = eta * (Form.atom('t') + Form.atom('b')) + (Form.const(1) - eta) * Form.atom('%s.mol' % feedp)
+        if good and (cur[topp] + cur[botp]) == want:
+            okk = True
+        else:
+            okk = False
+            break
+    okk = okk and n_eff > 0
     if okk:
         d1.ok('lle', 'efficiency mixing: top + bottom = eta*(top+bottom) + (1-eta)*feed', f, blk[0])
     else:
